@@ -104,6 +104,49 @@ theorem cal_range_valid (page size n s e t : Nat) (hsn : size + n < 2^64)
         | skip
       all_goals (generalize size * sub64 page 1 % 2 ^ 64 = a at *; omega)
 
+
+/-- **exact paging**: for a non-zero page size and page number (and no 64-bit wrap:
+`size·(page−1) < 2^64`, `size + n < 2^64`) the result is the textbook one — the number of pages is
+`⌈n/size⌉`, a page beyond the last is the empty range, and page `p` is `[size·(p−1), min(size·p, n))`. -/
+theorem cal_exact (page size n s e t : Nat) (hs : size ≠ 0) (hp : page ≠ 0) (hp64 : page < 2^64)
+    (hmul : size * (page - 1) < 2^64) (hsn : size + n < 2^64)
+    (h : PageIndex_Cal page size n = .ok (s, e, t)) :
+    t = n / size + (if n % size ≠ 0 then 1 else 0) ∧
+    (if page > t ∨ size * (page - 1) ≥ n then s = 0 ∧ e = 0
+     else s = size * (page - 1) ∧ e = min (size * (page - 1) + size) n) := by
+  unfold PageIndex_Cal at h
+  simp only [hs, hp, if_false] at h
+  have hsub : sub64 page 1 = page - 1 := by unfold sub64; omega
+  rw [hsub] at h
+  unfold wrap64 at h
+  have hdiv : n / size ≤ n := Nat.div_le_self n size
+  generalize size * (page - 1) = a at *
+  generalize n / size = q at *
+  generalize n % size = r at *
+  repeat' split at h
+  all_goals (simp only [Res.ok.injEq, Prod.mk.injEq] at h)
+  all_goals (obtain ⟨h1, h2, h3⟩ := h; subst h1; subst h2; subst h3)
+  all_goals (split <;> split <;> omega)
+
+/-- a transaction all of whose inputs are still unspent is never reported confirmed, and its verdict is
+the outcome of the constraint checks unless the verbose inputs cannot be built -/
+theorem all_unspent_unconfirmed (v : VIn) (o : VOut) (ha : v.ins.all (· == .unspent) = true)
+    (h : verifyTxnVerbose v = .ok o) : o.confirmed = false ∧ (o.err = v.checks ∨ o.err = some .other) := by
+  unfold verifyTxnVerbose verifyTxnVerboseG at h
+  rw [if_pos ha] at h
+  unfold finish at h
+  split at h
+  · split at h <;> (cases h; simp)
+  · cases h; simp
+
+/-- an input known nowhere (and not every input unspent) is an internal error, never a panic and never
+"confirmed" -/
+theorem unknown_input_verdict (v : VIn) (h1 : v.ins.all (· == .unspent) = false)
+    (h2 : v.ins.any (· == .unknown) = true) :
+    verifyTxnVerbose v = .ok ⟨false, false, some .other⟩ := by
+  unfold verifyTxnVerbose verifyTxnVerboseG
+  simp [h1, h2, finish]
+
 /-! non-vacuity -/
 -- the F6 witness: one already spent input, transaction unknown to the history
 def f6 : VIn := ⟨[.spent], none, none, 1500000600, none, false⟩
@@ -114,5 +157,7 @@ example : verifyTxnVerbose ⟨[.spent, .spent], some 3, some 1500001800, 1500003
 example : verifyTxnVerbose ⟨[.unspent], none, none, 1500003000, none, false⟩ = .ok ⟨true, false, none⟩ := by decide
 example : verifyTxnVerbose ⟨[.unspent, .unknown], none, none, 1500003000, none, false⟩ = .ok ⟨false, false, some .other⟩ := by decide
 example : PageIndex_Cal 2 10 25 = .ok (10, 20, 3) := by decide
+example : PageIndex_Cal 3 10 25 = .ok (20, 25, 3) := by decide
+example : PageIndex_Cal 4 10 25 = .ok (0, 0, 3) := by decide
 
 end Sky.Props.C28
